@@ -84,6 +84,40 @@ fn sibling(d: &mut Dec, cl: &Class) -> Class {
             ClassSet::BinOp(_, l, r) => change_first_form(l) || change_first_form(r),
         }
     }
+    /// The LAST literal or range end of the class moved to the next code point of the same UTF-8
+    /// length (the printed class keeps its length and everything but its tail).
+    fn change_tail(s: &mut ClassSet) -> bool {
+        fn next_same_len(c: char) -> Option<char> {
+            let n = char::from_u32(c as u32 + 1)?;
+            (n.len_utf8() == c.len_utf8() && !"[]\\^-&~".contains(n) && !"[]\\^-&~".contains(c) && n.is_alphanumeric() == c.is_alphanumeric()).then_some(n)
+        }
+        match s {
+            ClassSet::Items(v) => {
+                for it in v.iter_mut().rev() {
+                    match it {
+                        ClassItem::Lit(c, _) => {
+                            if let Some(n) = next_same_len(*c) {
+                                *c = n;
+                                return true;
+                            }
+                            return false;
+                        }
+                        ClassItem::Range(_, hi) => {
+                            if let Some(n) = next_same_len(*hi) {
+                                *hi = n;
+                                return true;
+                            }
+                            return false;
+                        }
+                        ClassItem::Bracket(b) => return change_tail(&mut b.set),
+                        _ => return false,
+                    }
+                }
+                false
+            }
+            ClassSet::BinOp(_, _, r) => change_tail(r),
+        }
+    }
     match cl {
         Class::Named(n, neg) => match d.below(3) {
             0 => Class::Named(n.clone(), !neg),
@@ -98,8 +132,13 @@ fn sibling(d: &mut Dec, cl: &Class) -> Class {
         },
         Class::Bracket(b) => {
             let mut nb = b.clone();
-            match d.below(3) {
+            match d.below(4) {
                 0 => nb.negated = !nb.negated,
+                3 => {
+                    if !change_tail(&mut nb.set) {
+                        nb.negated = !nb.negated;
+                    }
+                }
                 1 => {
                     if !flip_first_named(&mut nb.set) {
                         nb.negated = !nb.negated;
@@ -333,10 +372,16 @@ impl Check for C08 {
                     _ => ClassItem::Lit(ch, LitForm::Verbatim),
                 });
             }
-            return multi(vec![Rx::Class(Class::Bracket(Bracket {
+            let big = Class::Bracket(Bracket {
                 negated: d.chance(64),
                 set: ClassSet::Items(items),
-            }))]);
+            });
+            let mut rxs = vec![Rx::Class(big.clone())];
+            if d.chance(128) {
+                // a second class of the same printed length that differs only in its tail
+                rxs.push(Rx::Class(sibling(d, &big)));
+            }
+            return multi(rxs);
         }
         let first = if d.chance(40) {
             gen::gen_class(d, &p)
